@@ -5,8 +5,18 @@ CaseSeq == ndJsonDeserialize("cases.ndjson")
 VARIABLES phase, i, obs
 vars == <<phase, i, obs>>
 Init == phase = 0 /\ i \in 1..Len(CaseSeq) /\ obs = <<>>
-Next == phase = 0 /\ phase' = 1 /\ i' = i /\ obs' = Normal(CaseSeq[i])
+EvalCase(c) == IF "T" \in DOMAIN c
+               THEN LET mg == Moved(c, c.T) IN [base |-> Normal(c), moved |-> Normal(mg), mverts |-> mg.verts, P |-> FrameP(c, c.T)]
+               ELSE Normal(c)
+Next == phase = 0 /\ phase' = 1 /\ i' = i /\ obs' = EvalCase(CaseSeq[i])
 Spec == Init /\ [][Next]_vars
 \* H is symmetric (design-level sanity of the accumulation)
-Symmetric == phase = 1 => \A a \in 1..Len(obs.H) : \A b \in 1..Len(obs.H) : obs.H[a][b] = obs.H[b][a]
+Symmetric == phase = 1 /\ "H" \in DOMAIN obs => \A a \in 1..Len(obs.H) : \A b \in 1..Len(obs.H) : obs.H[a][b] = obs.H[b][a]
+\* T5: errors, chi^2, gradient and Hessian of the left-composed graph are those of the original graph
+FrameInvariant == phase = 1 /\ "moved" \in DOMAIN obs =>
+   LET c == CaseSeq[i]  P == FrameP(c, c.T) IN
+   /\ obs.base.atoms = obs.moved.atoms /\ obs.base.chi2 = obs.moved.chi2 /\ obs.base.errs = obs.moved.errs
+   /\ obs.moved.H = QMatMul(QMatMul(P, obs.base.H), QTranspose(P))
+   /\ obs.moved.b0 = QMatVec(P, obs.base.b0)
+   /\ \A k \in 1..Len(obs.base.B1) : obs.moved.B1[k] = QMatVec(P, obs.base.B1[k])
 =============================================================================
